@@ -3,6 +3,7 @@ package function
 import (
 	"github.com/ysugimoto/falco/v2/interpreter/context"
 	"github.com/ysugimoto/falco/v2/interpreter/function/errors"
+	"github.com/ysugimoto/falco/v2/interpreter/function/shared"
 	"github.com/ysugimoto/falco/v2/interpreter/value"
 	regexp "go.elara.ws/pcre"
 )
@@ -51,7 +52,11 @@ func Assert_match(ctx *context.Context, args ...value.Value) (value.Value, error
 			expect.Value,
 		)
 	}
-	ret := &value.Boolean{Value: re.MatchString(actual.Value)}
+	var matched bool
+	if err := shared.PcreMatch(func() { matched = re.MatchString(actual.Value) }); err != nil {
+		return nil, errors.NewTestingError("%s", err.Error())
+	}
+	ret := &value.Boolean{Value: matched}
 	if !ret.Value {
 		if message != "" {
 			return ret, errors.NewAssertionError(actual, "%s", message)
